@@ -54,10 +54,30 @@ def h_tokens(k0: int, k1: int, k2: int, k3: int, k4: int, k5: int, k6: int, k7: 
     d = mkdata([k0, k1, k2, k3, k4, k5, k6, k7], [n0, n1, n2, 0], [p0, p1, p2], [b0, b1, b2])
     o = Opts(fl=(P("fls") or [P("fl", "agen")] * 4), ffl=P("ffl", "adef"))
     Wa, Ws = World("a", susp=x, fn_susp=y), World("s")
-    D = Driver(Wa, sync_only=False)
+    thrown = None
+    if P("throw", False):
+        # the loop throws an exception in at its z-th suspension (what asyncio does to cancel)
+        thrown = asyncio.CancelledError("thrown-by-the-loop")
+        Wa.close_susp = 1
+        D = Driver(Wa, sync_only=False, cancel_at=z, cancel_exc=thrown)
+    else:
+        D = Driver(Wa, sync_only=False)
     ok = True
     with no_loop(Wa):
         out_a, end_a, _h = run_async(op, kind, Wa, D, d, o)
+        if D.cancelled:
+            if _h is not None:
+                Driver(Wa).aclose(_h)
+            # what the loop threw reached exactly the awaitable that was suspended, unchanged
+            if not Wa.thrown_seen or Wa.thrown_seen[0][0] is not D.cancel_token or Wa.thrown_seen[0][1] is not thrown:
+                ok = fail("%s:thrown-exception-did-not-reach-the-suspended-awaitable" % name, Wa.thrown_seen) and ok
+            if end_a is not thrown:
+                ok = fail("%s:thrown-exception-not-propagated" % name, end_a) and ok
+            for v in Wa.viol:
+                ok = fail("%s:%s" % (name, v)) and ok
+            if Wa.pending:
+                ok = fail("%s:suspension-tokens-lost" % name, len(Wa.pending)) and ok
+            return finish(ok, True, (name, tuple(len(s) for s in d.srcs), x, y, "thrown-at", D.nsusp))
     out_s, end_s = run_sync(op, kind, Ws, d, o)
     if not same_seq(out_a, out_s) or not endings_match(end_a, end_s):
         ok = fail("%s:result-differs-when-arguments-suspend" % name, (out_a, out_s, end_a, end_s)) and ok
@@ -73,7 +93,7 @@ def h_tokens(k0: int, k1: int, k2: int, k3: int, k4: int, k5: int, k6: int, k7: 
             n_src += 1
         elif ev[0] == "call":
             n_fn += 1
-    if Wa.ntok != n_src * x + n_fn * y:
+    if Wa.close_susp == 0 and Wa.ntok != n_src * x + n_fn * y:
         ok = fail("%s:suspended-elsewhere-than-in-user-awaitables" % name, (Wa.ntok, n_src, n_fn, x, y)) and ok
     for v in Wa.viol:
         ok = fail("%s:%s" % (name, v)) and ok
@@ -83,7 +103,7 @@ def h_tokens(k0: int, k1: int, k2: int, k3: int, k4: int, k5: int, k6: int, k7: 
 # ---- the other operation classes --------------------------------------------------------
 def h_tokens_misc(which: int, s: int):
     """
-    pre: 0 <= which <= 12 and 0 <= s <= 2
+    pre: 0 <= which <= 13 and 0 <= s <= 2
     post: _[0]
     post: not _[1]
     """
@@ -94,7 +114,7 @@ def h_tokens_misc(which: int, s: int):
     ok = True
     expect = None
     w = 0
-    for i in range(13):
+    for i in range(14):
         if which == i:
             w = i
 
@@ -257,6 +277,19 @@ def h_tokens_misc(which: int, s: int):
                 r = D.call(prog())
                 expect = 3 * s + 2 * s
                 good = r[0] == "ok" and len(r[1]) == 1 and same_seq(r[1][0], items)
+            elif w == 13:  # any_iter over a future-like awaitable (awaitable and iterable at once)
+                from .c19 import FutureLike
+
+                async def outer2():
+                    await sus()
+                    return W.source([items[0], items[1]], "acls")
+
+                async def prog():
+                    return [v async for v in A.any_iter(FutureLike(outer2()))]
+
+                r = D.call(prog())
+                expect = s + 3 * s
+                good = r[0] == "ok" and same_seq(r[1], items)
             elif w == 12:  # tee without a lock (must not look for a running loop)
                 src = W.source(items, "acls")
 
@@ -374,7 +407,7 @@ def _grid():
     return out
 
 
-GRID = {"h_sync_sizes": lambda: [(w, sz) for w in range(len(SIZE_OPS)) for sz in (0, 1, 5, 1000, 10001, 70000)], "h_tokens": _grid, "h_tokens_misc": lambda: [(w, s) for w in range(13) for s in range(3)]}
+GRID = {"h_sync_sizes": lambda: [(w, sz) for w in range(len(SIZE_OPS)) for sz in (0, 1, 5, 1000, 10001, 70000)], "h_tokens": _grid, "h_tokens_misc": lambda: [(w, s) for w in range(14) for s in range(3)]}
 
 TOOLS1 = ["filter", "filter_none", "filterfalse", "takewhile", "dropwhile", "pairwise", "cycle", "accumulate_f", "accumulate_f_init", "enumerate", "batched", "starmap", "islice", "iter_sentinel"]
 TOOLS2 = ["zip", "zip_longest", "map", "chain", "chain_from", "compress", "merge"]
@@ -404,13 +437,18 @@ def jobs(tier):
                 add("h_tokens", op=op, S=2, N=(1 if q else 2), X=(0, 2), Y=((0, 1) if q else (0, 2)), fl=fl, ffl=ffl, **kw)
         for op in AGGS1:
             add("h_tokens", op=op, S=1, N=N1, X=(0, 2), Y=((0, 1) if q else (0, 2)), fl=fl, ffl=ffl)
+    for fl, ffl in (("agen", "adef"), ("acls", "obj")):
+        for op in ("filter", "map", "enumerate", "islice", "zip", "chain", "merge", "accumulate_f", "list", "min", "sorted", "reduce", "nlargest"):
+            kw = {"form": 2, "PR": 2, "b0": False, "b1": False} if op == "islice" else {}
+            S_ = 2 if op in ("zip", "chain", "merge") else 1
+            add("h_tokens", op=op, S=S_, N=1, X=(1, 1), Y=(1, 1), Z=(1, 5), fl=fl, ffl=ffl, throw=True, **kw)
     add("h_tokens_misc")
     add("h_sync_sizes", SZ=(4 if q else 8), preflight_budget=90)
     return J
 
 
 BOUNDS = {
-    "quick": "user awaitables (source pulls, async callables, locks, context managers) suspend 0..2 times (sources, locks, context managers) / 0..1 times (callables) each (symbolic), every suspension yields a fresh token object and expects its token-specific reply; N<=2 items (two-source tools N<=1); 13 further operation classes (contextmanager, ExitStack, lru_cache, cached_property+lock, any_iter, await_each, apply, sync, scoped_iter/borrow, tee+lock, groupby, closing/nullcontext/decorator); asyncio loop accessors stubbed to raise; 23 operations over synchronous inputs of symbolic size 0..4 plus, natively in the pre-flight only, sizes 1000, 10001 and 70000",
+    "quick": "user awaitables (source pulls, async callables, locks, context managers) suspend 0..2 times (sources, locks, context managers) / 0..1 times (callables) each (symbolic), every suspension yields a fresh token object and expects its token-specific reply; N<=2 items (two-source tools N<=1); 14 further operation classes; an exception thrown in by the loop (asyncio.CancelledError) at suspension k reaches the suspended user awaitable unchanged and cleanup still only suspends in user awaitables (contextmanager, ExitStack, lru_cache, cached_property+lock, any_iter, await_each, apply, sync, scoped_iter/borrow, tee+lock, groupby, closing/nullcontext/decorator); asyncio loop accessors stubbed to raise; 23 operations over synchronous inputs of symbolic size 0..4 plus, natively in the pre-flight only, sizes 1000, 10001 and 70000",
     "thorough": "N<=3 (two-source tools N<=2)",
 }
 OUTSIDE = ["running under real asyncio/trio loops (nothing loop-specific can be reached without failing the token or loop-accessor checks, but that is an argument, not a check)", "lengths above the bound"]
